@@ -111,7 +111,7 @@ fn in_window(t: u64, deadline: u64) -> bool {
 }
 
 fn cfg_sig(c: &ConnCfg) -> String {
-    format!("req={} ka={:?} disc={}", c.req_timeout_ms, c.keep_alive_s, c.disc_timeout_ms)
+    format!("req={} ka={:?} disc={}{}", c.req_timeout_ms, c.keep_alive_s, c.disc_timeout_ms, if c.accept_delay_ms > 0 { " stale-clock" } else { "" })
 }
 
 fn judge(case: &Case, oc: &Outcome) -> Vec<Verdict> {
@@ -355,7 +355,7 @@ fn rel(t: u64, deadline: u64) -> &'static str {
 
 fn slow_head(rng: &mut Rng, fixed: Option<(u64, u64, bool)>) -> Case {
     let (t, head_done, blocked) = fixed.unwrap_or_else(|| {
-        let t = *rng.pick(&[0u64, 1000, 3000]);
+        let t = *rng.pick(&[0u64, 200, 1000, 3000]);
         let base = if t == 0 { 3000 } else { t };
         (t, grid(rng.range(0, (base + 1500) as usize) as u64), rng.chance(1, 4))
     });
@@ -363,6 +363,11 @@ fn slow_head(rng: &mut Rng, fixed: Option<(u64, u64, bool)>) -> Case {
     let mut cfg = ConnCfg::persistent();
     cfg.req_timeout_ms = t;
     cfg.disc_timeout_ms = *rng.pick(&[0u64, 1000]);
+    // the connection is accepted some time after the service (and its cached clock) started: the
+    // deadline is then computed from a stale clock and may already lie in the past
+    if fixed.is_none() {
+        cfg.accept_delay_ms = *rng.pick(&[0u64, 0, 300, 450]);
+    }
     // head in 1–4 pieces, the last one at `head_done`
     let pieces = rng.range(1, 4);
     let mut cuts: Vec<usize> = (0..pieces - 1).map(|_| rng.range(1, REQ.len() - 1)).collect();
